@@ -93,6 +93,12 @@ def grid(ctx, rng):
             k += 1
             specs.append(dict(seed=ctx.seed + 4000 + k, maxdata=4096, rid='plus', frag='whole', reorder=reorder, tick=0.001,
                               ops=[dict(api='push', size=12288, src='bytesio', path='/t', mtime=5, plan=dict(where=where, k=kk, reason='no space'), cuts='small', read_timeout_s=0)]))
+    # a directory push in which the device rejects a file (every file of the directory has a sync stream of its own)
+    for where, kk in (('SEND', 0), ('DATA', 0), ('DONE', 0)):
+        k += 1
+        specs.append(dict(seed=ctx.seed + 5000 + k, maxdata=4096, rid='plus', frag='whole',
+                          ops=[dict(api='push', src='dir', path='/sdcard/dir%d' % k, files=[['a.txt', 10], ['b.bin', 5000]], cwd=('inside', 'elsewhere')[k % 2], mtime=5,
+                                    plan=dict(where=where, k=kk, reason='read-only file system'), read_timeout_s=2.0)]))
     # missing file (the device's own FAIL)
     specs.append(dict(seed=1, maxdata=4096, rid='plus', frag='whole', ops=[dict(api='pull', size=None, path='/missing', plan=dict(where=None, reason='No such file'), read_timeout_s=2.0)]))
     # status ids that are valid FileSync ids but not valid at that point
